@@ -1,1 +1,346 @@
+(* Tok.v -- MultiTrackLargeVocabularyNotelikeTokeniser (scoda/tokenisation/notelike_tokenisation.py, fixed code):
+   configuration, structured tokens with their string rendering and parsing, vocabulary, tokenise, detokenise,
+   encode / decode, get_info. *)
+From Coq Require Import Ascii DecimalString.
 From Model Require Export Store.
+
+(* ---------------------------------------------------------------- configuration *)
+Record cfg : Set := mkcfg {
+  c_ppqn : Z; c_ntracks : Z; c_plo : Z; c_phi : Z;
+  c_steps : list Z;        (* sorted ascending, as after self.step_sizes.sort() *)
+  c_values : list Z;       (* sorted ascending *)
+  c_vbins : list Z;
+  c_tslo : Z; c_tshi : Z;
+  c_running : bool; c_ftrk : bool; c_fval : bool; c_fvel : bool; c_simplify : bool }.
+
+Fixpoint insZ (x : Z) (l : list Z) : list Z :=
+  match l with [] => [x] | y :: l' => if x <=? y then x :: y :: l' else y :: insZ x l' end.
+Fixpoint sortZ (l : list Z) : list Z := match l with [] => [] | x :: l' => insZ x (sortZ l') end.
+
+(* the constructor: MultiTrackLargeVocabularyNotelikeTokeniser(num_tracks, pitch_range, step_sizes, note_values,
+   velocity_bins, flags...) with ppqn = PPQN and the default time_signature_range *)
+Definition make_cfg (ntracks plo phi : Z) (steps values : option (list Z)) (nbins : Z)
+           (running ftrk fval fvel simplify : bool) : cfg :=
+  mkcfg PPQN ntracks plo phi
+        (sortZ (match steps with Some s => s | None => get_default_step_sizes 0 1 end))
+        (sortZ (match values with Some v => v | None => get_default_note_values end))
+        (velocity_bins nbins) (fst DEFAULT_TS_RANGE) (snd DEFAULT_TS_RANGE) running ftrk fval fvel simplify.
+
+(* int(ppqn * 4 * numerator / denominator) *)
+Definition bar_cap (c : cfg) (num den : Z) : Z := (c_ppqn c * 4 * num) / den.
+
+(* ---------------------------------------------------------------- tokens *)
+Inductive tok : Set :=
+| TPad | TSta | TSto | TBar
+| TRest (v : Z) | TTrk (t : Z) | TVal (v : Z) | TVel (v : Z)
+| TNote (trk : option Z) (pit : Z) (val : option Z) (vel : option Z)
+| TTsg (n d : Z).
+
+Definition oZ_eqb (a b : option Z) : bool :=
+  match a, b with Some x, Some y => Z.eqb x y | None, None => true | _, _ => false end.
+Definition tok_eqb (a b : tok) : bool :=
+  match a, b with
+  | TPad, TPad | TSta, TSta | TSto, TSto | TBar, TBar => true
+  | TRest x, TRest y | TTrk x, TTrk y | TVal x, TVal y | TVel x, TVel y => Z.eqb x y
+  | TNote t p v w, TNote t' p' v' w' => oZ_eqb t t' && Z.eqb p p' && oZ_eqb v v' && oZ_eqb w w'
+  | TTsg n d, TTsg n' d' => Z.eqb n n' && Z.eqb d d'
+  | _, _ => false
+  end.
+
+(* ---- rendering: f"{x:0w}" for integers (sign-aware zero padding) *)
+Local Open Scope string_scope.
+Fixpoint zeros (n : nat) : string := match n with O => "" | S n' => "0" ++ zeros n' end.
+Definition digits (n : N) : string := NilZero.string_of_uint (N.to_uint n).
+Definition padded (w : nat) (s : string) : string := zeros (w - String.length s) ++ s.
+Definition fmt (w : nat) (z : Z) : string :=
+  match z with
+  | Zneg p => "-" ++ padded (w - 1) (digits (Npos p))
+  | _ => padded w (digits (Z.to_N z))
+  end.
+
+Definition render_part (pfx : string) (w : nat) (z : Z) : string := pfx ++ "_" ++ fmt w z.
+Fixpoint join_dash (l : list string) : string :=
+  match l with [] => "" | [x] => x | x :: l' => x ++ "-" ++ join_dash l' end.
+Definition render_tok (t : tok) : string :=
+  match t with
+  | TPad => PFX_PAD | TSta => PFX_START | TSto => PFX_STOP | TBar => PFX_BAR
+  | TRest v => render_part PFX_REST 2 v
+  | TTrk v => render_part PFX_TRACK 2 v
+  | TVal v => render_part PFX_VALUE 2 v
+  | TVel v => render_part PFX_VELOCITY 3 v
+  | TNote t p v w =>
+      let parts := ((match t with Some x => [render_part PFX_TRACK 2 x] | None => [] end) ++
+                    [render_part PFX_PITCH 3 p] ++
+                    (match v with Some x => [render_part PFX_VALUE 2 x] | None => [] end) ++
+                    (match w with Some x => [render_part PFX_VELOCITY 3 x] | None => [] end))%list in
+      join_dash parts
+  | TTsg n d => PFX_TIME_SIGNATURE ++ "_" ++ fmt 2 n ++ "_" ++ fmt 2 d
+  end.
+
+(* ---- parsing (token.split("-"), part.split("_"), int(...)); only the shapes the tokeniser produces *)
+Fixpoint split_on (c : ascii) (s : string) : list string :=
+  match s with
+  | EmptyString => [EmptyString]
+  | String a s' =>
+      if Ascii.eqb a c then EmptyString :: split_on c s'
+      else match split_on c s' with
+           | [] => [String a EmptyString]          (* unreachable *)
+           | x :: r => String a x :: r
+           end
+  end.
+Definition parse_int (s : string) : option Z :=
+  match s with
+  | EmptyString => None
+  | _ => option_map (fun u => Z.of_N (N.of_uint u)) (NilZero.uint_of_string s)
+  end.
+
+Definition parse_parts (t : string) : list (list string) := map (split_on "_"%char) (split_on "-"%char t).
+
+Definition part_int (pfx : string) (p : list string) : option Z :=
+  match p with [h; v] => if String.eqb h pfx then parse_int v else None | _ => None end.
+
+Definition parse_tok (s : string) : option tok :=
+  match parse_parts s with
+  | [[h]] => if String.eqb h PFX_PAD then Some TPad else if String.eqb h PFX_START then Some TSta
+             else if String.eqb h PFX_STOP then Some TSto else if String.eqb h PFX_BAR then Some TBar else None
+  | [[h; a; b]] => if String.eqb h PFX_TIME_SIGNATURE
+                   then match parse_int a, parse_int b with Some n, Some d => Some (TTsg n d) | _, _ => None end
+                   else None
+  | [p] =>
+      match part_int PFX_REST p, part_int PFX_TRACK p, part_int PFX_VALUE p, part_int PFX_VELOCITY p, part_int PFX_PITCH p with
+      | Some v, _, _, _, _ => Some (TRest v)
+      | _, Some v, _, _, _ => Some (TTrk v)
+      | _, _, Some v, _, _ => Some (TVal v)
+      | _, _, _, Some v, _ => Some (TVel v)
+      | _, _, _, _, Some v => Some (TNote None v None None)
+      | _, _, _, _, _ => None
+      end
+  | ps =>
+      (* [trk]? pit [val]? [vel]? in this order *)
+      let '(t, ps1) := match ps with p :: r => match part_int PFX_TRACK p with Some v => (Some v, r) | None => (None, ps) end | [] => (None, ps) end in
+      match ps1 with
+      | pp :: ps2 =>
+          match part_int PFX_PITCH pp with
+          | None => None
+          | Some pit =>
+              let '(v, ps3) := match ps2 with p :: r => match part_int PFX_VALUE p with Some x => (Some x, r) | None => (None, ps2) end | [] => (None, ps2) end in
+              let '(w, ps4) := match ps3 with p :: r => match part_int PFX_VELOCITY p with Some x => (Some x, r) | None => (None, ps3) end | [] => (None, ps3) end in
+              match ps4 with [] => Some (TNote t pit v w) | _ => None end
+          end
+      | [] => None
+      end
+  end.
+Local Close Scope string_scope.
+
+(* ---------------------------------------------------------------- vocabulary *)
+Fixpoint rangeZ_aux (n : nat) (lo : Z) : list Z := match n with O => [] | S n' => lo :: rangeZ_aux n' (lo + 1) end.
+Definition rangeZ (lo hi : Z) : list Z := rangeZ_aux (Z.to_nat (hi - lo)) lo.   (* range(lo, hi) *)
+
+Definition note_tokens (c : cfg) : list tok :=
+  let trks := if c_ftrk c then map Some (rangeZ 0 (c_ntracks c)) else [None] in
+  let vals := if c_fval c then map Some (c_values c) else [None] in
+  let vels := if c_fvel c then map Some (c_vbins c) else [None] in
+  flat_map (fun t => flat_map (fun p => flat_map (fun v => map (fun w => TNote t p v w) vels) vals)
+                                       (rangeZ (c_plo c) (c_phi c + 1))) trks.
+
+Definition vocab (c : cfg) : list tok :=
+  [TPad; TSta; TSto; TBar] ++ map TRest (c_steps c) ++
+  (if c_ftrk c then [] else map TTrk (rangeZ 0 (c_ntracks c))) ++
+  (if c_fval c then [] else map TVal (c_values c)) ++
+  (if c_fvel c then [] else map TVel (c_vbins c)) ++
+  note_tokens c ++
+  map (fun n => TTsg n DEFAULT_TS_DEN) (rangeZ (c_tslo c) (c_tshi c + 1)).
+
+(* dictionary[token] = id, later duplicates overwrite; dictionary_size counts every insertion *)
+Fixpoint last_index_aux (t : tok) (l : list tok) (i : Z) (found : option Z) : option Z :=
+  match l with [] => found | x :: l' => last_index_aux t l' (i + 1) (if tok_eqb t x then Some i else found) end.
+Definition encode1 (c : cfg) (t : tok) : result Z :=
+  match last_index_aux t (vocab c) 0 None with Some i => Ok i | None => Err KeyErr end.
+Definition decode1 (c : cfg) (i : Z) : result tok :=
+  if (i <? 0) then Err KeyErr else
+  match nth_error (vocab c) (Z.to_nat i) with
+  | Some t => match encode1 c t with Ok j => if Z.eqb i j then Ok t else Err KeyErr | Err e => Err e end
+  | None => Err KeyErr
+  end.
+Definition encode (c : cfg) (ts : list tok) : result (list Z) := mapM (encode1 c) ts.
+Definition decode (c : cfg) (is_ : list Z) : result (list tok) := mapM (decode1 c) is_.
+Definition dictionary_size (c : cfg) : Z := lenZ (vocab c).
+
+(* ---------------------------------------------------------------- tokenise *)
+Record tstate : Set := mkts {
+  t_time : Z; t_tbar : Z; t_num : Z; t_den : Z; t_rem : Z; t_ptrk : Z; t_pval : Z; t_pvel : Z }.
+Definition tstate0 (c : cfg) : tstate :=
+  mkts 0 0 DEFAULT_TS_NUM DEFAULT_TS_DEN (bar_cap c DEFAULT_TS_NUM DEFAULT_TS_DEN) (-1) (-1) (-1).
+
+(* loop state inside one call *)
+Record lstate : Set := mkls {
+  l_toks : list tok; l_time : Z; l_tbar : Z; l_num : Z; l_den : Z; l_total : Z; l_rem : Z;
+  l_ptrk : Z; l_pval : Z; l_pvel : Z; l_has : bool }.
+
+Definition last_step (c : cfg) : Z := last (c_steps c) 0.
+(* next(step for step in reversed(steps) if nxt >= step) *)
+Definition largest_le (steps : list Z) (x : Z) : option Z := last_opt (filter (fun s => s <=? x) steps).
+
+Fixpoint apply_rest (fuel : nat) (c : cfg) (s : lstate) (buf : Z) : result lstate :=
+  if buf <=? 0 then Ok s else
+  match fuel with
+  | O => Err OutOfFuel
+  | S f =>
+      let nxt := Z.min buf (l_rem s) in
+      let v := if last_step c <? nxt then Some (last_step c) else largest_le (c_steps c) nxt in
+      match v with
+      | None => Err TokErr
+      | Some v =>
+          let rem := l_rem s - v in
+          let atend := Z.eqb rem 0 in
+          let s' := mkls (l_toks s ++ [TRest v] ++ (if atend then [TBar] else []))
+                         (l_time s + v) (if atend then 0 else l_tbar s + v) (l_num s) (l_den s) (l_total s)
+                         (if atend then l_total s else rem) (l_ptrk s) (l_pval s) (l_pvel s)
+                         (if atend then false else l_has s) in
+          apply_rest f c s' (buf - v)
+      end
+  end.
+Definition rest_fuel (buf : Z) : nat := S (Z.to_nat buf).
+
+Definition note_tok (c : cfg) (s : lstate) (ch pit val vel : Z) : list tok :=
+  let pre_t := if negb (c_ftrk c) && (negb (Z.eqb ch (l_ptrk s)) || negb (c_running c)) then [TTrk ch] else [] in
+  let pre_v := if negb (c_fval c) && (negb (Z.eqb val (l_pval s)) || negb (c_running c)) then [TVal val] else [] in
+  let pre_w := if negb (c_fvel c) && (negb (Z.eqb vel (l_pvel s)) || negb (c_running c)) then [TVel vel] else [] in
+  pre_t ++ pre_v ++ pre_w ++
+  [TNote (if c_ftrk c then Some ch else None) pit (if c_fval c then Some val else None) (if c_fvel c then Some vel else None)].
+
+Definition tok_event (c : cfg) (shift : Z) (s : lstate) (e : Z * pairing) : result lstate :=
+  let m := p_first (snd e) in
+  let mt := m_time m + shift in
+  do s1 <- (if Z.eqb (l_time s) mt then Ok s else apply_rest (rest_fuel (mt - l_time s)) c s (mt - l_time s));
+  match m_type m with
+  | NOTE_ON =>
+      let val := p_off_time (snd e) - m_time m in
+      let bi := bin_velocity (m_vel m) (c_vbins c) in
+      match nth_error (c_vbins c) (Z.to_nat bi) with
+      | None => Err IndexErr
+      | Some vel =>
+          if negb ((c_plo c <=? m_note m) && (m_note m <=? c_phi c)) then Err TokErr else
+          if negb (memZ val (c_values c)) then Err TokErr else
+          Ok (mkls (l_toks s1 ++ note_tok c s1 (m_chan m) (m_note m) val vel) (l_time s1) (l_tbar s1) (l_num s1) (l_den s1)
+                   (l_total s1) (l_rem s1) (m_chan m) val vel true)
+      end
+  | TIME_SIGNATURE =>
+      if 0 <? l_tbar s1 then Ok s1 else
+      (* scaled = numerator * (DEFAULT_DENOMINATOR / denominator) must be an integer *)
+      if negb (Z.eqb ((m_num m * DEFAULT_TS_DEN) mod m_den m) 0) then Err TokErr else
+      let scaled := (m_num m * DEFAULT_TS_DEN) / m_den m in
+      if negb ((c_tslo c <=? scaled) && (scaled <=? c_tshi c)) then Err TokErr else
+      let total := bar_cap c (m_num m) (m_den m) in
+      Ok (mkls (l_toks s1 ++ [TTsg scaled DEFAULT_TS_NUM]) (l_time s1) (l_tbar s1) (m_num m) (m_den m) total total
+               (l_ptrk s1) (l_pval s1) (l_pvel s1) (l_has s1))
+  | _ => Ok s1
+  end.
+
+Definition TOK_TYPES : list mtype := [NOTE_ON; NOTE_OFF; TIME_SIGNATURE; INTERNAL].
+
+(* set_channel(i) on every track, merge into a new Sequence, interleaved pairings of the merged sequence *)
+Definition tok_frontend (tracks : list (list msg)) : result (list (Z * pairing)) :=
+  let chs := mapi (fun i r => set_channel r i) tracks in
+  let merged_abs := merge_abs [] (map to_abs chs) in
+  let merged_rel := normalise (to_rel merged_abs) in
+  interleaved TOK_TYPES PPQN true (sort_abs (to_abs merged_rel)).
+
+Definition tokenise (c : cfg) (st : tstate) (tracks : list (list msg)) : result (list tok * tstate) :=
+  if negb (Z.eqb (lenZ tracks) (c_ntracks c)) then Err TokErr else
+  do evs <- tok_frontend tracks;
+  let total := bar_cap c (t_num st) (t_den st) in
+  let s0 := mkls [] (t_time st) (t_tbar st) (t_num st) (t_den st) total (t_rem st) (t_ptrk st) (t_pval st) (t_pvel st) false in
+  do s1 <- foldM (tok_event c (t_time st)) evs s0;
+  do s2 <- (if ((0 <? l_tbar s1) || l_has s1) && (0 <? l_rem s1)
+            then apply_rest (rest_fuel (l_rem s1)) c s1 (l_rem s1) else Ok s1);
+  Ok (l_toks s2, mkts (l_time s2) (l_tbar s2) (l_num s2) (l_den s2) (l_rem s2) (l_ptrk s2) (l_pval s2) (l_pvel s2)).
+
+(* ---------------------------------------------------------------- detokenise *)
+Record dstate : Set := mkds {
+  d_seqs : list (list msg);       (* absolute lists, one per track *)
+  d_time : Z; d_tbar : Z; d_num : Z; d_den : Z; d_total : Z; d_rem : Z;
+  d_ptrk : Z; d_pval : Z; d_pvel : Z }.
+
+Definition dstate0 (c : cfg) : dstate :=
+  let total := bar_cap c DEFAULT_TS_NUM DEFAULT_TS_DEN in
+  mkds (map (fun _ => []) (rangeZ 0 (c_ntracks c))) 0 0 DEFAULT_TS_NUM DEFAULT_TS_DEN total total 0 24 127.
+
+(* sequences[i] with Python indexing *)
+Definition py_index (n i : Z) : option nat :=
+  if (0 <=? i) && (i <? n) then Some (Z.to_nat i) else if (i <? 0) && (- n <=? i) then Some (Z.to_nat (n + i)) else None.
+
+Definition set_clock (s : dstate) (seqs : list (list msg)) (time tbar num den total rem : Z) : dstate :=
+  mkds seqs time tbar num den total rem (d_ptrk s) (d_pval s) (d_pvel s).
+
+Definition detok_step (c : cfg) (s : dstate) (t : tok) : result dstate :=
+  match t with
+  | TPad | TSta | TSto => Ok s
+  | TBar =>
+      let time := d_time s + d_rem s in
+      Ok (set_clock s (map (insort (mk_internal 0 time)) (d_seqs s)) time 0 (d_num s) (d_den s) (d_total s) (d_total s))
+  | TRest v => Ok (set_clock s (d_seqs s) (d_time s + v) (d_tbar s + v) (d_num s) (d_den s) (d_total s) (d_rem s - v))
+  | TTrk v => Ok (mkds (d_seqs s) (d_time s) (d_tbar s) (d_num s) (d_den s) (d_total s) (d_rem s) v (d_pval s) (d_pvel s))
+  | TVal v => Ok (mkds (d_seqs s) (d_time s) (d_tbar s) (d_num s) (d_den s) (d_total s) (d_rem s) (d_ptrk s) v (d_pvel s))
+  | TVel v => Ok (mkds (d_seqs s) (d_time s) (d_tbar s) (d_num s) (d_den s) (d_total s) (d_rem s) (d_ptrk s) (d_pval s) v)
+  | TNote t p v w =>
+      let trk := match t with Some x => x | None => d_ptrk s end in
+      let val := match v with Some x => x | None => d_pval s end in
+      let vel := match w with Some x => x | None => d_pvel s end in
+      match py_index (lenZ (d_seqs s)) trk with
+      | None => Err IndexErr
+      | Some i =>
+          let seqs := set_nth i (fun a => insort (mk_off 0 p (d_time s + val) false) (insort (mk_on 0 p vel (d_time s) false) a)) (d_seqs s) in
+          Ok (mkds seqs (d_time s) (d_tbar s) (d_num s) (d_den s) (d_total s) (d_rem s) trk val vel)
+      end
+  | TTsg n d =>
+      if 0 <? d_tbar s then Ok s else
+      if Z.eqb d 0 then Err OutOfModel else
+      let switched := negb (Z.eqb (d_num s) n && Z.eqb (d_den s) d) in
+      let total := bar_cap c n d in
+      let '(n', d') := if c_simplify c && Z.eqb (n mod 2) 0 && Z.eqb (d mod 2) 0 then (n / 2, d / 2) else (n, d) in
+      let seqs := if switched || negb (c_running c)
+                  then match d_seqs s with
+                       | a :: r => insort (mk_ts 0 n' d' (d_time s) false) a :: r
+                       | [] => []          (* sequences[0] of an empty list: IndexError, excluded by num_tracks >= 1 *)
+                       end
+                  else d_seqs s in
+      Ok (set_clock s seqs (d_time s) (d_tbar s) n' d' total total)
+  end.
+
+Definition detokenise (c : cfg) (ts : list tok) : result (list (list msg)) :=
+  do s <- foldM (detok_step c) ts (dstate0 c); Ok (d_seqs s).
+
+(* string-level wrappers *)
+Definition parse_all (ss : list string) : result (list tok) :=
+  mapM (fun s => match parse_tok s with Some t => Ok t | None => Err OutOfModel end) ss.
+
+(* ---------------------------------------------------------------- get_info *)
+Record istate : Set := mkis { i_time : Z; i_tbar : Z; i_total : Z; i_rem : Z }.
+Definition istate0 (c : cfg) : istate :=
+  let total := bar_cap c DEFAULT_TS_NUM DEFAULT_TS_DEN in mkis 0 0 total total.
+Definition PRV_PITCH : Z := 69.
+
+(* returns the new clock and the (pitch, cof) annotation; None = nan *)
+Definition info_step (c : cfg) (impute : bool) (s : istate) (t : tok) : istate * option (Z * option Z) :=
+  let dflt := if impute then Some (PRV_PITCH, get_position PRV_PITCH) else None in
+  match t with
+  | TBar => (mkis (i_time s + i_rem s) 0 (i_total s) (i_total s), dflt)
+  | TRest v => (mkis (i_time s + v) (i_tbar s + v) (i_total s) (i_rem s - v), dflt)
+  | TNote _ p _ _ => (s, Some (p, get_position p))
+  | TTsg n d =>
+      if 0 <? i_tbar s then (s, dflt)
+      else let total := bar_cap c n d in (mkis (i_time s) (i_tbar s) total total, dflt)
+  | _ => (s, dflt)
+  end.
+
+Record info : Set := mkinfo { f_pos : list Z; f_time : list Z; f_tbar : list Z; f_pitch : list (option (Z * option Z)) }.
+Fixpoint get_info_aux (c : cfg) (impute : bool) (s : istate) (pos : Z) (ts : list tok) : info :=
+  match ts with
+  | [] => mkinfo [] [] [] []
+  | t :: ts' =>
+      let '(s', a) := info_step c impute s t in
+      let r := get_info_aux c impute s' (pos + 1) ts' in
+      mkinfo (pos :: f_pos r) (i_time s :: f_time r) (i_tbar s :: f_tbar r) (a :: f_pitch r)
+  end.
+Definition get_info (c : cfg) (impute : bool) (ts : list tok) : info := get_info_aux c impute (istate0 c) 0 ts.
